@@ -261,40 +261,47 @@ def run(R):
     R.describe('C15.R5', 'TlsAcceptor::new: no client CA -> with_no_client_auth; else WebPkiClientVerifier::builder(roots of that CA only), allow_unauthenticated only when client_auth_optional; ServerTlsConfig::tls_acceptor passes the same-named fields in order')
     with R.guard('C15.R5'):
         b = tonic.body('server::service::tls::TlsAcceptor::new')
+        ta = tonic.body('server::tls::ServerTlsConfig::tls_acceptor')
+        R.saw(b, ta)
+        c = ta.calls(pat='TlsAcceptor::new')
+        if len(c) != 1:
+            raise CheckError('ANCHOR-MISSING: %d calls of TlsAcceptor::new in ServerTlsConfig::tls_acceptor' % len(c))
+        # which ServerTlsConfig field each location of TlsAcceptor::new (a parameter, or a field of a parameter struct) is fed from
+        fmap = callsite_field_map(tonic, ta, c[0][1])
+        R.note('TlsAcceptor::new is fed: %r' % {str(k): v for k, v in sorted(fmap.items())})
+
+        def cfg(t_):
+            lo = callee_loc(strip_refs(mirlib.simplify(t_)))
+            return fmap.get(lo) if lo else None
+        want = ['identity', 'client_ca_root', 'client_auth_optional', 'ignore_client_order', 'use_key_log']
+        R.eq(sorted(set(fmap.values()) & set(want)), sorted(want), 'C15.R5', 'acceptor-args-in-order', site(ta), 'the configuration fields handed to TlsAcceptor::new')
         nca = b.calls(name='with_no_client_auth')
-        R.check(len(nca) == 1 and any(tm[0] == 'discr' and 'arg2' in show(tm) and vals in ([0], ['else']) for s, vals, tm in b.edge_guards(nca[0][0])), 'C15.R5', 'no-ca->no-client-auth', site(b), 'with_no_client_auth only when client_ca_root is None')
+        R.check(len(nca) == 1 and any(tm[0] == 'discr' and cfg(tm) == 'client_ca_root' and vals in ([0], ['else']) for s, vals, tm in b.edge_guards(nca[0][0])), 'C15.R5', 'no-ca->no-client-auth', site(b), 'with_no_client_auth only when client_ca_root is None')
         wb = [(bb, t) for bb, t in b.calls(name='builder') if 'WebPkiClientVerifier' in (t.get('fn') or '')]
         R.floor('C15.R5', 'verifier builder sites', len(wb), 1)
+        adds = [(bb, t) for bb, t in b.calls(name='add_parsable_certificates')]
         for bb, t in wb:
             r = b.origin(t['args'][0])
-            R.check(term_contains(r, lambda x: is_call(x, name='empty') and 'RootCertStore' in x[1]) or 'roots' in show(r), 'C15.R5', 'verifier-roots', site(b, bb), 'verifier roots = %s' % show(r)[:80])
-            R.check(any(tm[0] == 'discr' and 'arg2' in show(tm) and vals == [1] for s, vals, tm in b.edge_guards(bb)), 'C15.R5', 'verifier-when-ca', site(b, bb), 'verifier built only when a client CA is configured')
-        adds = [(bb, t) for bb, t in b.calls(name='add_parsable_certificates')]
-        R.check(len(adds) == 1 and term_contains(b.origin(adds[0][1]['args'][1]), lambda x: is_call(x, name='convert_certificate_to_pki_types') and 'arg2' in show(x)), 'C15.R5', 'roots-from-client-ca-only', site(b), 'client roots come from client_ca_root only (add sites: %d)' % len(adds))
+            # the store handed to the verifier is the one the client CA was added to
+            stores = [strip_refs(x) for x in find_terms(r, lambda x: is_call(x, name='empty') and 'RootCertStore' in x[1])]
+            added_to = [strip_refs(x) for bb2, t2 in adds for x in find_terms(b.origin(t2['args'][0]), lambda x: is_call(x, name='empty') and 'RootCertStore' in x[1])]
+            R.check(bool(stores) and all(any(s_[4] is a_[4] for a_ in added_to) for s_ in stores), 'C15.R5', 'verifier-roots', site(b, bb), 'verifier roots = %s' % show(r)[:80])
+            R.check(any(tm[0] == 'discr' and cfg(tm) == 'client_ca_root' and vals == [1] for s, vals, tm in b.edge_guards(bb)), 'C15.R5', 'verifier-when-ca', site(b, bb), 'verifier built only when a client CA is configured')
+        okadd = len(adds) == 1 and any(cfg(x[2][0]) == 'client_ca_root' for x in find_terms(b.origin(adds[0][1]['args'][1]), lambda x: is_call(x, name='convert_certificate_to_pki_types')))
+        R.check(okadd, 'C15.R5', 'roots-from-client-ca-only', site(b), 'client roots come from client_ca_root only (add sites: %d)' % len(adds))
         au = b.calls(name='allow_unauthenticated')
         R.check(len(au) == 1, 'C15.R5', 'allow_unauthenticated-site', site(b), 'allow_unauthenticated sites: %d' % len(au))
         for bb, t in au:
             g = b.edge_guards(bb)
-            okg = any(show(tm).startswith('arg3') and (vals == ['else'] or 0 not in vals) for s, vals, tm in g)
-            R.check(okg, 'C15.R5', 'optional-iff-client_auth_optional', site(b, bb), 'allow_unauthenticated guarded by client_auth_optional (arg3): %r' % [(v, show(tm)[:30]) for s, v, tm in g])
+            okg = any(cfg(tm) == 'client_auth_optional' and tm[0] != 'discr' and b.edge_truth(s, vals) is True for s, vals, tm in g)
+            R.check(okg, 'C15.R5', 'optional-iff-client_auth_optional', site(b, bb), 'allow_unauthenticated guarded by client_auth_optional: %r' % [(v, show(tm)[:30], cfg(tm)) for s, v, tm in g])
         wv = b.calls(name='with_client_cert_verifier')
         R.check(len(wv) == 1 and term_contains(b.origin(wv[0][1]['args'][1]), lambda x: is_call(x, name='build')), 'C15.R5', 'verifier-installed', site(b), 'with_client_cert_verifier(built verifier)')
         ic = [(bb, i, st) for bb, i, st in mirlib.assignments(b, lambda st: mirlib.place_fields(st['p'])[-1:] == ['ignore_client_order'])]
-        R.check(len(ic) == 1 and show(b._origin_def(('stmt', ic[0][0], ic[0][1], ic[0][2]['rv']), 0, set())).startswith('arg4'), 'C15.R5', 'ignore_client_order-from-arg4', site(b), 'config.ignore_client_order = ignore_client_order')
-        ta = tonic.body('server::tls::ServerTlsConfig::tls_acceptor')
-        R.saw(ta)
-        c = ta.calls(pat='TlsAcceptor::new')
-        want = ['identity', 'client_ca_root', 'client_auth_optional', 'ignore_client_order', 'use_key_log']
-        got = []
-        for a in (c[0][1]['args'] if c else []):
-            tm = ta.origin(a)
-            fl = [x[2] for x in find_terms(tm, lambda x: x and x[0] == 'field' and x[2] in want)]
-            got.append(fl[:1])
-        R.eq([g[0] if g else None for g in got], want, 'C15.R5', 'acceptor-args-in-order', site(ta), 'TlsAcceptor::new arguments (same-typed bool flags must not be swapped)')
-        sg = tonic.sig('server::service::tls::TlsAcceptor::new')
-        R.eq(len(sg['inputs']), 5, 'C15.R5', 'acceptor-arity', site(b), 'TlsAcceptor::new parameter count')
-        pn = {n['n']: n.get('arg') for n in b.names_raw if n.get('arg')}
-        R.eq([k for k, v in sorted(pn.items(), key=lambda kv: kv[1])], want, 'C15.R5', 'acceptor-param-names', site(b), 'TlsAcceptor::new parameter names in order')
+        R.check(len(ic) == 1 and cfg(b._origin_def(('stmt', ic[0][0], ic[0][1], ic[0][2]['rv']), 0, set())) == 'ignore_client_order', 'C15.R5', 'ignore_client_order-from-arg4', site(b), 'config.ignore_client_order = the configured ignore_client_order')
+        kl = [(bb, i, st) for bb, i, st in mirlib.assignments(b, lambda st: mirlib.place_fields(st['p'])[-1:] == ['key_log'])]
+        okk = len(kl) == 1 and any(cfg(tm) == 'use_key_log' and tm[0] != 'discr' and b.edge_truth(s, vals) is True for s, vals, tm in b.edge_guards(kl[0][0]))
+        R.check(okk, 'C15.R5', 'key_log-iff-use_key_log', site(b), 'config.key_log is installed only when use_key_log is set (a swapped flag would write TLS secrets to SSLKEYLOGFILE)')
 
     # ---------------------------------------------------------------- R6 server IO
     R.describe('C15.R6', 'ServerIoStream: plaintext ServerIo::new_io only in poll_next_without_tls, which is used only when no TLS state is configured; ServerIo::new_tls_io only after tls.accept(stream).await succeeded')
